@@ -2,6 +2,7 @@
 package c05
 
 import (
+	"math"
 	"bytes"
 	"encoding/json"
 	"fmt"
@@ -148,8 +149,8 @@ func genValue(t *rapid.T) ValueCase {
 	}
 	flags := rapid.IntRange(0, 15).Draw(t, "flags")
 	c.FF, c.HW, c.Headless, c.Nonce = flags&1 != 0, flags&2 != 0, flags&4 != 0, flags&8 != 0
-	c.Touch = rapid.SampledFrom([]int{-1, 0, 1, 1, 1, 2, 3, 4, 7, 1 << 40, -(1 << 40)}).Draw(t, "touch")
-	c.Usage = rapid.SampledFrom([]int{0, 0, 1, 2, -1, 1 << 33}).Draw(t, "usage")
+	c.Touch = rapid.SampledFrom([]int{-1, 0, 1, 1, 1, 2, 3, 4, 7, 1 << 40, -(1 << 40), 1<<53 + 1, -(1<<53 + 1), 1<<62 + 1, math.MaxInt64, math.MaxInt64 - 1, math.MinInt64}).Draw(t, "touch")
+	c.Usage = rapid.SampledFrom([]int{0, 0, 1, 2, -1, 1 << 33, 1<<53 + 1, 9007199254740993, math.MaxInt64, math.MinInt64 + 1}).Draw(t, "usage")
 	c.Version = rapid.SampledFrom([]uint16{1, 1, 1, 1, 1, 1, 0, 2, 3, 255, 256, 257, 65535}).Draw(t, "ver")
 	return c
 }
@@ -190,6 +191,16 @@ func execValue(c ValueCase) (vh.Outcome, error) {
 	if !reflect.DeepEqual(got, orig) {
 		return out, vh.Errf("round trip changed the KeyID:\n in  %#v\n out %#v\n text %s", orig, got, s)
 	}
+	// the decoded value belongs to the caller: writing into it must not change what the same text
+	// decodes to afterwards
+	for i := range got.Principals {
+		got.Principals[i] = "scribbled-by-the-caller"
+	}
+	got.TransID, got.ReqUser = "scribbled", "scribbled"
+	again, err := keyid.Unmarshal(s)
+	if err != nil || !reflect.DeepEqual(again, orig) {
+		return out, vh.Errf("decoding the same text a second time, after the caller wrote into the first result, gives another KeyID (%v):\n first  %#v\n second %#v\n text %s", err, orig, again, s)
+	}
 	// the encoded text itself must carry every required member, exactly spelled
 	names, ok := topLevelNames(s)
 	if !ok {
@@ -210,7 +221,7 @@ func execValue(c ValueCase) (vh.Outcome, error) {
 func TestC05Value(t *testing.T) {
 	vh.Run(t, vh.Spec[ValueCase]{
 		Property: "C05", Name: "TestC05Value",
-		Rule: "KeyID values: 16 flag combinations x touch policy in {-1..4,7,+-2^40} x usage x version in {0,1,2,3,255..257,65535} x nil/0..4 principals x strings with JSON metacharacters and non-ASCII, and field-shaped values in non-canonical forms (IP literals such as ::ffff:10.1.2.3 or 2001:DB8::1, mixed-case and dot-terminated host names, padded or upper-case ids); oracle: Marshal succeeds iff ver=1 and consistent (independent predicate), then Unmarshal(Marshal(k)) deep-equals k and the text carries all 11 required names. Non-trivial: at least one flag set or touch policy outside 0..3; distinct by canonical Case hash.",
+		Rule: "KeyID values: 16 flag combinations x touch policy in {-1..4,7,+-2^40,+-(2^53+1),2^62+1,the 64-bit extremes} x usage (also beyond 2^53: numbers a float64 cannot hold) x version in {0,1,2,3,255..257,65535} x nil/0..4 principals x strings with JSON metacharacters and non-ASCII, and field-shaped values in non-canonical forms (IP literals such as ::ffff:10.1.2.3 or 2001:DB8::1, mixed-case and dot-terminated host names, padded or upper-case ids); oracle: Marshal succeeds iff ver=1 and consistent (independent predicate), then Unmarshal(Marshal(k)) deep-equals k, also a second time after the caller wrote into the first result, and the text carries all 11 required names. Non-trivial: at least one flag set or touch policy outside 0..3; distinct by canonical Case hash.",
 		Gen:  genValue, Exec: execValue,
 	})
 }
@@ -330,8 +341,12 @@ func swapCase(s string, mode int) string {
 var retypes = []string{`0`, `2`, `3`, `255`, `65535`, `false`, `""`, `null`, `"x"`, `1`, `true`, `[]`, `{}`, `1.5`, `-1`, `"1"`, `[1]`, `{"a":1}`, `1e2`, `65536`, `4294967297`}
 
 func genText(t *rapid.T) TextCase {
-	kind := rapid.IntRange(0, 9).Draw(t, "kind")
+	kind := rapid.IntRange(0, 10).Draw(t, "kind")
 	switch {
+	case kind == 10: // a complete, valid text with something behind it: no longer one JSON object
+		c := genConsistentValue(t)
+		full := joinMembers(baseMembers(c), "")
+		return TextCase{Text: full + rapid.SampledFrom([]string{"}", " }", "{}", full, "\n" + full, ",", " x", "\x00", "null", "]", "// comment", " 1", "\n\n."}).Draw(t, "trailer"), Kind: "trailer"}
 	case kind <= 1: // valid by construction: shuffled order, extra members, whitespace
 		c := genConsistentValue(t)
 		ms := baseMembers(c)
